@@ -39,6 +39,16 @@ theorem vAt_set (l : List F) (a b : Nat) (v : F) (i c : Nat) (hb : b < 8) (hc : 
   · have : ¬ (a * 8 + b = i * 8 + c) := by omega
     simp only [this, if_false, h, List.getD_eq_getElem?_getD]
 
+theorem nAt_set0 (l : List Int) (a : Nat) (v : Int) (i c : Nat) (hc : c < 4) (ha : a * 4 < l.length) :
+    nAt (l.set (a * 4) v) i c = if i = a ∧ c = 0 then v else nAt l i c := by
+  have := nAt_set l a 0 v i c (by decide) hc (by omega)
+  simpa using this
+
+theorem vAt_set0 (l : List F) (a : Nat) (v : F) (i c : Nat) (hc : c < 8) (ha : a * 8 < l.length) :
+    vAt (l.set (a * 8) v) i c = if i = a ∧ c = 0 then ⟨v⟩ else vAt l i c := by
+  have := vAt_set l a 0 v i c (by decide) hc (by omega)
+  simpa using this
+
 /-- a write to the stored maximum (column 7) leaves every node's values alone -/
 theorem nodeAt_set7 (l : List F) (a : Nat) (v : F) (i : Nat) : nodeAt (l.set (a * 8 + 7) v) i = nodeAt l i := by
   have h : ∀ c, c < 7 → vAt (l.set (a * 8 + 7) v) i c = vAt l i c := by
@@ -104,6 +114,20 @@ theorem stMax_spec (fuel : Nat) (s : State F) (n : Nat) (hs : s.shp "tree_vals" 
     simp [mx2_v, h]
 
 /-! ### frame rules -/
+
+theorem Linked.idx_lt {N : List Int} {n : Nat} : ∀ {sh : Sh} {par : Int}, Linked N n par sh → ∀ i ∈ sh.idxs, i + 1 < n := by
+  intro sh
+  induction sh with
+  | nil => intro _ _ i hi; simp [Sh.idxs] at hi
+  | node l j r ihl ihr =>
+    intro par h i hi
+    simp only [Sh.idxs, List.mem_append, List.mem_cons] at hi
+    rcases hi with hi | rfl | hi
+    · exact ihl h.2.2.2.2.1 i hi
+    · exact h.1
+    · exact ihr h.2.2.2.2.2 i hi
+
+
 
 /-- a subtree none of whose link cells is written stays linked -/
 theorem Linked.congr {N N' : List Int} {n : Nat} : ∀ {sh : Sh} {par : Int},
